@@ -5,7 +5,10 @@
 (* eligible; everything else is byte-identical.  Bodies are opaque digests.   *)
 EXTENDS Integers, Sequences, FiniteSets, TLC
 
-AE == {"absent", "gzip", "gzip_deflate", "deflate_gzip", "br_gzipq", "GZIP", "identity", "deflate", "gzipx", "x-gzip"}
+\* gzip_q0*: gzip named with weight zero in several spellings ("gzip;q=0", "gzip;q=0.0", "gzip; q=0.000", "gzip;q=0.") --
+\* the client refuses gzip, it did not list it as acceptable
+AE == {"absent", "gzip", "gzip_deflate", "deflate_gzip", "br_gzipq", "GZIP", "identity", "deflate", "gzipx", "x-gzip",
+       "gzip_q0", "gzip_q00", "gzip_q000sp", "gzip_q0dot"}
 ListsGzip(a) == a \in {"gzip", "gzip_deflate", "deflate_gzip", "br_gzipq", "GZIP"}
 CT == {"json", "json_charset", "plain", "none"}
 Matches(t) == t \in {"json", "json_charset"}          \* configured prefix: application/json
